@@ -272,7 +272,7 @@ func runC02(c *Ctx) {
 		c.Res.Count(hex.EncodeToString(raw), nt)
 		if nSample < 5 && nt && len(raw) < 300 && (nSample%2 == 0) == o.accepted {
 			nSample++
-			c.Res.Sample(map[string]string{"stream": stream, "bytes": hex.EncodeToString(raw), "accepted": fmt.Sprint(o.accepted), "error": trunc(o.errText)})
+			c.Res.Sample(map[string]string{"stream": stream, "bytes": hex.EncodeToString(raw), "accepted": fmt.Sprint(o.accepted), "error": c02Trunc(o.errText)})
 		}
 	}
 	maybeGz := func(raw []byte, stream string) {
@@ -287,11 +287,10 @@ func runC02(c *Ctx) {
 	na := 600 * scale
 	var prev []byte
 	for i := 0; i < na && !aborted; i++ {
-		st := c01Strategies[i%len(c01Strategies)]
+		st := c02GenStrategies[i%len(c02GenStrategies)]
 		opts := st.o
-		opts.NoLineLocs = true
 		p := GenProfile(r, &opts)
-		valid, _ := writeU(p)
+		valid, _ := c02WriteU(p)
 		if prev == nil {
 			prev = valid
 		}
@@ -310,7 +309,7 @@ func runC02(c *Ctx) {
 		prev = valid
 	}
 	// (b) random field soups
-	nb := 1000 * scale
+	nb := 800 * scale
 	for i := 0; i < nb && !aborted; i++ {
 		budget := 40 + r.Intn(200)
 		maybeGz(c02Soup(r, c02ProfSchema, 0, &budget), "b:soup")
